@@ -1260,6 +1260,19 @@ class Symbolic(
       if target is self and not notify_parents:
         break
 
+  def _invalidate_content_caches(self) -> None:
+    """Resets the content-based caches of current node and all its ancestors.
+
+    Called by the write primitives whenever the content of current node is
+    changed, no matter whether the change will be notified or not.
+    """
+    node = self
+    while node is not None:
+      node._set_raw_attr('_sym_puresymbolic', None)       # pylint: disable=protected-access
+      node._set_raw_attr('_sym_missing_values', None)     # pylint: disable=protected-access
+      node._set_raw_attr('_sym_nondefault_values', None)  # pylint: disable=protected-access
+      node = node.sym_parent
+
   def _error_message(self, message: str) -> str:
     """Create error message to include path information."""
     return utils.message_on_path(message, self.sym_path)
